@@ -208,7 +208,29 @@ PARAM_SETS = [{"safe_min_limit": 1.0}, {"safe_max_limit_coefficient": 4.0}, {"us
 def get_func(fa, name):
     if name in STRESS:
         return STRESS[name][0]
+    if name.startswith("gen:"):
+        from .progen import get_generated
+
+        _, seed, kind = name.split(":")
+        return get_generated(int(seed), kind == "c")[0]
     return getattr(fa.algorithms, name)
+
+
+def generated_request(rng, target):
+    """A request for a freshly generated program (see progen), identified by its seed."""
+    from .progen import get_generated
+
+    seed = rng.getrandbits(32)
+    cplx = rng.random() < 0.3
+    _, nargs, _ = get_generated(seed, cplx)
+    tys = STRESS_SIGS[target]["complex" if cplx else "float"]
+    if target == "cpp":
+        # double only: the cpp target emits constants as untyped (double) literals, so float32 programs that
+        # pass a literal to a libm function do not even compile (std::min(double, float)); that is a
+        # program-dimension matter about constant typing, outside the scoped claim (DESIGN.md section 11)
+        tys = [x for x in tys if x in (":float64", ":complex128")]
+    ty = rng.choice(tys)
+    return dict(target=target, func="gen:%d:%s" % (seed, "c" if cplx else "r"), sig=[ty] * nargs, sigidx=0)
 
 
 def build_universe(fa, extra_targets=()):
